@@ -29,11 +29,19 @@ NCPU = os.cpu_count() or 4
 
 
 def load_findings() -> dict[str, dict]:
-    """signature -> entry, only for entries with status == "open"."""
-    if not FINDINGS_FILE.exists():
-        return {}
-    data = json.loads(FINDINGS_FILE.read_text())
-    return {e["signature"]: e for e in data.get("findings", []) if e.get("status") == "open"}
+    """signature -> entry, only for entries with status == "open" (known_findings.json and
+    known_findings.d/*.json; read-only, never written at run time)."""
+    out: dict[str, dict] = {}
+    files = [FINDINGS_FILE] if FINDINGS_FILE.exists() else []
+    d = ROOT / "known_findings.d"
+    if d.is_dir():
+        files += sorted(d.glob("*.json"))
+    for f in files:
+        data = json.loads(f.read_text())
+        for e in data.get("findings", []):
+            if e.get("status") == "open":
+                out[e["signature"]] = e
+    return out
 
 
 @dataclass
